@@ -346,6 +346,7 @@ class Emitter:
         rc, rarr, rref = self.T.ctype(rt)
         if rref:
             rc += ' *'
+        self.ret_is_ref = rref
         self.ret_c = rc
         params = []
         if self.self_class:
@@ -417,7 +418,7 @@ class Emitter:
             ctx = Ctx()
             inner = n.get('inner', [])
             if inner:
-                e = self.expr(inner[0], ctx)
+                e = self.addr(inner[0], ctx) if getattr(self, 'ret_is_ref', False) else self.expr(inner[0], ctx)
                 return self.wrap_flat(ctx, [I + 'return %s;' % e], d)
             return [I + 'return;']
         if k == 'IfStmt':
@@ -689,6 +690,9 @@ class Emitter:
         a0 = self.strip_noop(a)
         c = self.ty(a0)[0] if a0.get('type') else None
         scalar = c is not None and self.T.is_scalar(c) and not self.ty(a0)[1]
+        if a0['kind'] == 'MaterializeTemporaryExpr' and scalar and not stl:
+            # prvalue scalar bound to a const reference parameter of a library function: needs an address
+            pass
         if stl and scalar:
             # STL stubs take scalar elements/indices by value
             if a0['kind'] == 'MaterializeTemporaryExpr':
@@ -931,6 +935,12 @@ class Emitter:
             self.fire('E5_copy_val')
             return '%s__copy_val(%s)' % (c, self.addr(src, ctx))
         al = [self.arg(a, ctx) for a in args if a.get('kind') != 'CXXDefaultArgExpr']
+        self.fire('E5_ctor_val')
+        return '%s__make_%d(%s)' % (c, len(al), ', '.join(al))
+
+    def x_CXXTemporaryObjectExpr(self, n, ctx):
+        c = self.ty(n)[0]
+        al = [self.arg(a, ctx, stl=c.startswith(STL_C)) for a in n.get('inner', []) if a.get('kind') != 'CXXDefaultArgExpr']
         self.fire('E5_ctor_val')
         return '%s__make_%d(%s)' % (c, len(al), ', '.join(al))
 
@@ -1205,10 +1215,24 @@ def parse_spec(path):
 # class layout
 # --------------------------------------------------------------------------
 
-def class_struct(cfg, relfile, cls, cname=None, skip=()):
+def class_struct(cfg, relfile, cls, cname=None, skip=(), targs=None):
     docs = clang_dump(relfile, cls)
     T = Types(cfg)
     best = None
+    if targs:
+        def walk(d):
+            nonlocal best
+            if d.get('kind') == 'ClassTemplateSpecializationDecl' and d.get('name') == cls:
+                a = ', '.join(c.get('type', {}).get('qualType', '?') for c in d.get('inner', [])
+                              if c.get('kind') == 'TemplateArgument')
+                if a == targs and d.get('completeDefinition', True):
+                    best = d
+            for c in d.get('inner', []):
+                if c.get('kind') in ('ClassTemplateDecl', 'ClassTemplateSpecializationDecl'):
+                    walk(c)
+        for d in docs:
+            walk(d)
+        docs = []
     for d in docs:
         if d.get('kind') in ('CXXRecordDecl', 'ClassTemplateSpecializationDecl') and d.get('name') == cls.split('::')[-1] \
                 and d.get('completeDefinition'):
@@ -1239,25 +1263,34 @@ def class_struct(cfg, relfile, cls, cname=None, skip=()):
 # top level
 # --------------------------------------------------------------------------
 
-def find_function(relfile, qualname, selector=None, extra_defs=()):
-    docs = clang_dump(relfile, qualname, extra_defs)
+def find_function(relfile, qualname, selector=None, extra_defs=(), filt=None):
+    docs = clang_dump(relfile, filt or qualname, extra_defs)
     short = qualname.split('::')[-1]
     cands = []
     statics = set()
 
-    def visit(d):
+    def visit(d, targs=''):
         if d.get('kind') == 'CXXMethodDecl' and d.get('name') == short and d.get('storageClass') == 'static':
             statics.add(d['id'])
         if d.get('kind') in ('FunctionDecl', 'CXXMethodDecl', 'CXXConstructorDecl') and d.get('name') == short and has_body(d):
+            d['_targs'] = targs
             cands.append(d)
+        if d.get('kind') == 'ClassTemplateSpecializationDecl':
+            targs = '@<' + ', '.join(c.get('type', {}).get('qualType', '?') for c in d.get('inner', [])
+                                     if c.get('kind') == 'TemplateArgument') + '>'
+        if d.get('kind') == 'ClassTemplateDecl':
+            targs = '@<pattern>'
         if d.get('kind') in ('FunctionTemplateDecl', 'ClassTemplateDecl', 'ClassTemplateSpecializationDecl',
                              'CXXRecordDecl', 'NamespaceDecl'):
             for c in d.get('inner', []):
-                visit(c)
+                visit(c, targs)
     for d in docs:
         visit(d)
     if selector:
-        cands = [d for d in cands if re.search(selector, d['type']['qualType'])]
+        # the selector is matched against "<function type> @<template arguments of the enclosing class>"
+        cands = [d for d in cands if re.search(selector, d['type']['qualType'] + ' ' + d.get('_targs', ''))]
+    else:
+        cands = [d for d in cands if d.get('_targs') != '@<pattern>' or len(cands) == 1]
     # de-duplicate (template pattern vs instantiation are different nodes; identical ids are the same)
     seen = {}
     for d in cands:
@@ -1293,7 +1326,7 @@ def source_text(node, relfile):
 def extract(cfg, target, specs):
     """target: {file, name, cname, selector?, self?} -> dict(text, sig, rules, line, sha)"""
     node = find_function(target['file'], target['name'], target.get('selector'),
-                         tuple(target.get('defs', ())))
+                         tuple(target.get('defs', ())), target.get('filter'))
     cname = target['cname']
     selfcls = target.get('self')
     if node.get('kind') == 'CXXMethodDecl' and node.get('storageClass') == 'static':
@@ -1338,13 +1371,15 @@ def extract_global(cfg, relfile, name):
 
 if __name__ == '__main__':
     import sys
-    cfg = {}
+    cfg = json.load(open(os.path.join(VERIF, 'contracts', 'common.json')))
     t = {'file': sys.argv[1], 'name': sys.argv[2], 'cname': sys.argv[2].split('::')[-1]}
     if len(sys.argv) > 3:
         t['selector'] = sys.argv[3]
+    if len(sys.argv) > 4:
+        t['filter'] = sys.argv[4]
     if '::' in sys.argv[2]:
         t['self'] = sys.argv[2].split('::')[0]
-        cfg['classes'] = [t['self']]
+        cfg['classes'] = cfg.get('classes', []) + [t['self']]
     r = extract(cfg, t, {})
     print(r['text'])
     print('/* rules:', r['rules'], 'line', r['line'], '*/')
